@@ -1,0 +1,20 @@
+//go:build verif
+
+// Assumed contracts for the message-builder interfaces (implemented by
+// generated code, which is outside the verified library proper). Comment-only.
+package messages
+
+//@ spec tagBS(b ref) string
+//@ spec tagBL(b ref) string
+//@ spec tagCS(b ref) string
+
+//@ interface Builder assumed
+//@   method BeginStringTag() (res string):
+//@     pure
+//@     ensures res == tagBS(self)
+//@   method BodyLengthTag() (res string):
+//@     pure
+//@     ensures res == tagBL(self)
+//@   method CheckSumTag() (res string):
+//@     pure
+//@     ensures res == tagCS(self)
